@@ -12,6 +12,7 @@ import (
 	"time"
 
 	"github.com/thomasjungblut/go-sstables/recordio"
+	rProto "github.com/thomasjungblut/go-sstables/recordio/proto"
 	"github.com/thomasjungblut/go-sstables/simpledb"
 	"github.com/thomasjungblut/go-sstables/skiplist"
 	"github.com/thomasjungblut/go-sstables/sstables"
@@ -246,6 +247,44 @@ func (c *c19Case) Exec() {
 				c.Fatal = "a file with a three-byte header was opened"
 			}
 			closers = append(closers, func() error { m.Close(); return nil })
+		case "tblidx":
+			// a table reader per index loader (the on-disk index keeps a mapping of the index file of its own):
+			// a lookup and a range scan step, then Close
+			t2, err := sstables.NewSSTableReader(sstables.ReadBasePath(dir), sstables.ReadIndexLoader(loaderFor([]string{"slice", "skiplist", "map4", "disk"}[i%4], 4096)))
+			must(err)
+			t2.Get([]byte("k05"))
+			if it, err := t2.ScanRange([]byte("k03"), []byte("k09")); err == nil {
+				it.Next()
+			}
+			must(t2.Close())
+		case "seqfile":
+			// a reader that takes over an open file
+			fh, err := os.Open(rioPath)
+			must(err)
+			f, err := recordio.NewFileReaderWithFile(fh)
+			must(err)
+			must(f.Open())
+			f.ReadNext()
+			must(f.Close())
+		case "writerfile":
+			fh, err := os.Create(filepath.Join(dir, fmt.Sprintf("wf%d.rio", i)))
+			must(err)
+			w, err := recordio.NewFileWriter(recordio.File(fh))
+			must(err)
+			must(w.Open())
+			w.Write([]byte("x"))
+			must(w.Close())
+		case "protoread":
+			// the protobuf flavours of the readers over the index file
+			pr, err := rProto.NewReader(rProto.ReaderPath(filepath.Join(dir, sstables.IndexFileName)))
+			must(err)
+			must(pr.Open())
+			pr.SkipNext()
+			must(pr.Close())
+			pm, err := rProto.NewMMapProtoReaderWithPath(filepath.Join(dir, sstables.IndexFileName))
+			must(err)
+			must(pm.Open())
+			must(pm.Close())
 		case "seqread":
 			f, err := recordio.NewFileReaderWithPath(rioPath)
 			must(err)
@@ -371,13 +410,13 @@ func genC19(r *rand.Rand, tier string) []Case {
 			c := &c19Case{Mode: "reader"}
 			kinds := []string{"full", "abandoned", "range", "mmapseek", "seqread", "writer"}
 			if i%2 == 0 {
-				kinds = append(kinds, "mmapnoopen", "mmapbadopen", "writerseek", "superclose")
+				kinds = append(kinds, "mmapnoopen", "mmapbadopen", "writerseek", "superclose", "tblidx", "seqfile", "writerfile", "protoread")
 			}
 			for j := 0; j < 2+r.Intn(8); j++ {
 				c.Scans = append(c.Scans, kinds[r.Intn(len(kinds))])
 			}
 			if i%2 == 0 {
-				c.Scans = append(c.Scans, "superclose", "writerseek")
+				c.Scans = append(c.Scans, "superclose", "writerseek", "tblidx", "tblidx", "tblidx", "tblidx", "seqfile", "protoread")
 			}
 			cases = append(cases, c)
 			continue
